@@ -119,16 +119,15 @@ theorem mem_sortByPosition {C} (bps : List (Breakpoint C)) (b : Breakpoint C) : 
 /-- invariant of the join loop on a list sorted by position: the accumulator (newest first) has strictly decreasing
 positions, all of them positions of the input, and none greater than what is still to come -/
 theorem joinFold_spec {C} (mul : C → C → C) : ∀ (bps acc : List (Breakpoint C)),
-    (acc ++ bps).Pairwise (fun a b => True) →
     acc.Pairwise (fun a b => b.position < a.position) →
     bps.Pairwise (fun a b => a.position ≤ b.position) →
     (∀ a ∈ acc, ∀ b ∈ bps, a.position ≤ b.position) →
     (bps.foldl (joinStep mul) acc).Pairwise (fun a b => b.position < a.position) ∧
     ∀ x ∈ bps.foldl (joinStep mul) acc, ∃ y ∈ acc ++ bps, y.position = x.position
-  | [], acc, _, hacc, _, _ => by
+  | [], acc, hacc, _, _ => by
     simp only [List.foldl_nil, List.append_nil]
     exact ⟨hacc, fun x hx => ⟨x, hx, rfl⟩⟩
-  | b :: bs, acc, _, hacc, hbps, hle => by
+  | b :: bs, acc, hacc, hbps, hle => by
     simp only [List.foldl_cons]
     rw [List.pairwise_cons] at hbps
     have hstep : (joinStep mul acc b).Pairwise (fun a b => b.position < a.position) ∧
@@ -178,8 +177,7 @@ theorem joinFold_spec {C} (mul : C → C → C) : ∀ (bps acc : List (Breakpoin
                 · simp
                 · simp [hx], rfl⟩
     obtain ⟨h1, h2, h3⟩ := hstep
-    obtain ⟨r1, r2⟩ := joinFold_spec mul bs (joinStep mul acc b) (List.pairwise_of_forall (fun _ _ => trivial))
-      h1 hbps.2 h2
+    obtain ⟨r1, r2⟩ := joinFold_spec mul bs (joinStep mul acc b) h1 hbps.2 h2
     refine ⟨r1, ?_⟩
     intro x hx
     obtain ⟨y, hy, hyx⟩ := r2 x hx
@@ -193,7 +191,7 @@ theorem joinDuplicates_spec {C} (mul : C → C → C) (bps : List (Breakpoint C)
     (hs : bps.Pairwise (fun a b => a.position ≤ b.position)) :
     (joinDuplicates mul bps).Pairwise (fun a b => a.position < b.position) ∧
     ∀ x ∈ joinDuplicates mul bps, ∃ y ∈ bps, y.position = x.position := by
-  obtain ⟨h1, h2⟩ := joinFold_spec mul bps [] (List.pairwise_of_forall (fun _ _ => trivial)) (by simp) hs (by simp)
+  obtain ⟨h1, h2⟩ := joinFold_spec mul bps [] (by simp) hs (by simp)
   unfold joinDuplicates
   refine ⟨List.pairwise_reverse.mpr h1, ?_⟩
   intro x hx
